@@ -15,4 +15,3 @@ func components(r *vh.Rng, o *vh.Opts, sum *vh.Summary, cw *vh.CaseWriter) {
 		iox.Component(r, sum, cw, false)
 	}
 }
-
